@@ -2,7 +2,9 @@
 rendering of a window must not depend on the windows decoded before it (caches, leftovers, counters).  Cases that
 were rendered one by one on fresh parsers are fed again as one long stream (same thread, and pairwise interleaved
 on two threads) through a single parser and every rendering is compared with the stand-alone one."""
-from vlib import core, ev, histories as H
+import io
+
+from vlib import core, ev, wire, gen, histories as H
 
 
 def run_stream(res, key_prefix, cases, rng, label):
@@ -59,3 +61,62 @@ def run_stream(res, key_prefix, cases, rng, label):
                               f'{got.get(k, [])} inside a long stream on one parser, {texts} on a fresh parser',
                               {'description': desc, 'mode': mode})
                 return
+
+
+def run_files(res, key_prefix, cases, rng, label, limit=600):
+    """The same windows through the public front end: written into a version-2 and a version-3 dump (events split
+    over several chunks) and decoded by PyKdebugParser.traces().  In every other window all records carry the SAME
+    timestamp (the time base is coarse; a START and its END may share a tick) - file order, not time, is the order."""
+    from pykdebugparser.pykdebugparser import PyKdebugParser
+    if not cases:
+        return
+    order = list(range(len(cases)))
+    rng.shuffle(order)
+    order = order[:limit]
+    events, spans = [], []
+    ts = 5000
+    for gi, i in enumerate(order):
+        seq = cases[i][0]
+        evs = H.materialize([(6, a) for a in seq], t0=ts, step=0 if gi % 2 else 7)
+        spans.append((ts, evs[-1].timestamp))
+        events += evs
+        ts = evs[-1].timestamp + 7
+    records = gen.events_to_records(events)
+    entries = [(6, 100, b'proc0', b'')]
+    files = {'v2': wire.v2_file(entries, 8, records),
+             'v3': wire.V3Spec(entries=entries, chunks=gen.split_chunks(rng, records, rng.choice((1, 2, 5, 9)))).build()}
+    for kind, data in files.items():
+        try:
+            traces = list(PyKdebugParser().traces(io.BytesIO(data)))
+        except Exception as x:
+            res.violation(f'{key_prefix}-file-raises-{core.exc_name(x)}', f'{label}: {len(order)} windows in a {kind} dump: '
+                          f'{x!r} at {core.short_tb(x)}', {'file': data})
+            return
+        got = {}
+        k = 0
+        for t in traces:
+            t0 = t.ktraces[0].timestamp
+            while k < len(spans) - 1 and t0 > spans[k][1]:
+                k += 1
+            got.setdefault(k, []).append(str(t))
+        res.count(f'file_windows_{kind}', len(order))
+        for gi, i in enumerate(order):
+            seq, texts, desc = cases[i]
+            if got.get(gi, []) != texts:
+                res.violation(f'{key_prefix}-differs-through-{kind}-dump', f'{label}: {desc}: rendered {got.get(gi, [])} when '
+                              f'the records are read from a {kind} dump by the front end'
+                              + (' (all records of the window share one timestamp)' if gi % 2 else '')
+                              + f', {texts} when fed to the trace parser directly', {'description': desc, 'file': data})
+                return
+
+
+def traces_via_file(events, kind, rng):
+    """The events written into a dump of the given container version and decoded by the public front end."""
+    from pykdebugparser.pykdebugparser import PyKdebugParser
+    records = gen.events_to_records(events)
+    entries = gen.threadmap_for(events)
+    if kind == 'v2':
+        data = wire.v2_file(entries, 8, records)
+    else:
+        data = wire.V3Spec(entries=entries, chunks=gen.split_chunks(rng, records, rng.choice((1, 2, 3)))).build()
+    return data, list(PyKdebugParser().traces(io.BytesIO(data)))
